@@ -212,6 +212,20 @@ def step (st : St) (line : String) : St × Option String :=
         (st, some ("schema ok " ++ maskedHex s m ++ " " ++
           String.join (rows.map fun r => toString r.depth ++ "," ++ toString r.off ++ "," ++ toString r.size ++ "," ++ toString r.align ++ ";")))
       | _, _ => (st, some "badval")
+  | ["fromhex", i, r, h] =>
+      match i.toNat?.bind (st.types[·]?), r.toNat? with
+      | some t, some r =>
+        let s := unhex h.toList
+        (st, some ("fromhex | F " ++ showRes (fun (x : Val × Nat) => showVal x.1 ++ " " ++ toString x.2) (t.deFull H s) ++
+                   " | E " ++ showRes (fun (x : EVal × Nat) => showEVal x.1 ++ " " ++ toString x.2) (t.deEps H r s)))
+      | _, _ => (st, some "badval")
+  | ["alloc", i, r, val] =>
+      match i.toNat?.bind (st.types[·]?), r.toNat?, parseVal val with
+      | some t, some r, some v =>
+        if !t.wt v then (st, some "illtyped") else
+        let s := t.ser H (st.names.getD i.toNat! []) v
+        (st, some ("alloc * * | E " ++ showRes (fun (x : EVal × Nat) => showEVal x.1) (t.deEps H r s)))
+      | _, _, _ => (st, some "badval")
   | ["wfail", i, spec, val] =>
       match i.toNat?.bind (st.types[·]?), parseVal val with
       | some t, some v =>
